@@ -227,6 +227,7 @@ fn dispatch(scenario: &str, seed: u64, worker: usize, slot: &Slot) {
         "kvs-live" => store::kvs_liveness(seed, worker, slot),
         "kvs-verifier" => store::kvs_with_verifier(seed, worker, slot),
         "kvs-soak" => store::kvs_soak(seed, worker, slot),
+        "tree-soak" => store::tree_soak(seed, worker, slot),
         "tree-live" => store::tree_liveness(seed, worker, slot),
         other => panic!("unknown scenario {other}"),
     }
@@ -240,7 +241,7 @@ fn property_of(scenario: &str) -> &'static str {
         "kvs-linz" => "C06",
         "kvs-cursor" => "C07",
         "kvs-verifier" => "C08",
-        "kvs-soak" => "C01",
+        "kvs-soak" | "tree-soak" => "C01",
         "kvs-live" | "tree-live" => "C20",
         _ => "?",
     }
@@ -327,7 +328,7 @@ fn cmd_sched(args: &Args) -> i32 {
             }
         }
         if let Some((class, detail)) = res.failure.as_ref() {
-            let p = if scenario == "kvs-soak" && class.contains("scan") { "C03" } else { property_of(scenario) };
+            let p = if (scenario == "kvs-soak" || scenario == "tree-soak") && class.contains("scan") { "C03" } else { property_of(scenario) };
             let class = format!("{scenario}:{class}");
             if p == prop {
                 if failure_details.len() < 400 {
